@@ -156,6 +156,17 @@ Theorem ring_invariant : forall m t0 its g w, mono its -> lru_reach m t0 its g w
 Proof. exact ring_invariant_l. Qed.
 Print Assumptions ring_invariant.
 
+(* the ring read through the node keys: exactly the cached keys, most recently used first
+   (strictly sorted by the age of their last put / successful get in the event history) *)
+Theorem ring_sorted_by_last_use : forall m t0 its g w, mono its -> lru_reach m t0 its g w ->
+  exists ids keys,
+    ring_ids (l_store (fst w)) true = Some ids /\
+    Forall2 (fun i k => exists nd, sget (l_store (fst w)) i = Some nd /\ n_key nd = Some k) ids keys /\
+    Sorted.StronglySorted (younger (snd g)) keys /\
+    (forall k, In k keys <-> has (fst w) k = true).
+Proof. exact ring_sorted_l. Qed.
+Print Assumptions ring_sorted_by_last_use.
+
 (* ---- refinement: from related states the store-level model and the list-level specification
    make the same step (same result, same clock) and stay related; the ring is the recency list *)
 Theorem lru_refines_spec : forall cl c a zs k,
@@ -250,6 +261,25 @@ Theorem unprotected_put_is_not_linearizable :
        exists rs w, wrun cache_step its (cache0, 0) = Ok (rs, w) /\ length (c_data (fst w)) = 2%nat).
 Proof. exact unlocked_put_loses_update. Qed.
 Print Assumptions unprotected_put_is_not_linearizable.
+
+(* every object state that concurrent threads can produce is the state of a sequential history
+   (the witness), so every sequential theorem above applies to it verbatim *)
+Theorem concurrent_states_are_sequential_states : forall m t0 c0 ls cf,
+  lru_init m = Ok c0 -> exec lru_step (init_conf c0 t0) ls cf ->
+  exists g, lru_reach m t0 (witness ls) g (cf_obj cf, cf_now cf) /\ mono (witness ls).
+Proof. exact conc_lru_reach. Qed.
+Print Assumptions concurrent_states_are_sequential_states.
+
+(* in particular a lookup executed by any thread at any point of any interleaving returns the
+   most recently stored, not flushed, not evicted, unexpired answer - of the witness history *)
+Theorem conc_latest_unexpired : forall m t0 c0 ls cf t key ds cf',
+  lru_init m = Ok c0 -> exec lru_step (init_conf c0 t0) ls cf ->
+  cstep lru_step cf (LBody t (Get key) ds) cf' ->
+  exists g r, lru_reach m t0 (witness ls) g (cf_obj cf, cf_now cf) /\
+              cf_ph cf' t = Finished (Get key) r /\
+              r = expected (fst g) key (cf_now cf').
+Proof. exact conc_lru_get_l. Qed.
+Print Assumptions conc_latest_unexpired.
 
 (* consequences for the LRUCache under concurrency: the bound holds in every reachable
    configuration, and no method body can raise *)
